@@ -4,6 +4,8 @@ C05 — polynomial (P,Q) completion encodes exactly the requested corner polynom
 Theorem: QSP/Properties/C05.lean `validC05_sound` (acceptance implies unitarity within tol
 and Hadamard-conjugated corner = P(cos t) within 1e-9 |P|_1 for every t; purely algebraic).
 """
+from fractions import Fraction
+
 import numpy as np
 
 import core
@@ -15,12 +17,22 @@ PROP = "C05"
 
 def one(ctx, C, Pc, tol, kind, meta):
     drv = ctx.driver()
+    rec = {}
+    opq = C._pq_completion
+
+    def pq(Pp):
+        q = opq(Pp)
+        rec["Q"] = np.array(q.coef, dtype=complex)
+        return q
+    C._pq_completion = pq
     try:
         with core.quiet():
             g = C.completion_from_root_finding(np.array(Pc), coef_type="P", tol=tol)
         out = ("ok", g)
     except Exception as e:  # noqa
         out = (type(e).__name__, str(e)[:60])
+    finally:
+        C._pq_completion = opq
     ctx.count("outcome:" + out[0])
     ctx.count("kind:" + kind)
     d = len(Pc) - 1
@@ -40,6 +52,20 @@ def one(ctx, C, Pc, tol, kind, meta):
     if v.get("err"):
         raise core.InfraError("validator error " + line)
     ctx.count("validator-stage-%d" % v["stage"])
+    # glue correspondence: given the Q the oracle stage produced, the even / odd interleaving of the
+    # Chebyshev coefficients of P (first kind) and Q (second kind) must give exactly these F, G
+    if v["ok"] and "Q" in rec:
+        with core.quiet():
+            pc = C.poly2cheb(np.array(Pc, dtype=complex), kind="T")
+            qc = C.poly2cheb(np.array(rec["Q"], dtype=complex), kind="U")
+        mo = drv.ask("pq.interleave %s %s %s %s" % (rl(F(z.real) for z in pc), rl(F(z.imag) for z in pc), rl(F(z.real) for z in qc), rl(F(z.imag) for z in qc)))
+        mf, mg = [core.pl(t) for t in mo.split()]
+        ctx.count("glue-compared")
+        big = max([abs(x) for x in mf + mg] + [Fraction(1, 10 ** 300)])
+        cf, cg = [F(float(x)) for x in Fc], [F(float(x)) for x in Gc]
+        if len(mf) != len(cf) or len(mg) != len(cg) or any(abs(a - b) > Fraction(1, 2 ** 44) * big for a, b in zip(cf + cg, mf + mg)):
+            ctx.violation("c05:glue", "F, G differ from the interleaving of the Chebyshev coefficients of P and of the completing Q (slots, signs or mirroring changed)",
+                          dict(replay, model=mo[:300]), found_input=False)
     if not v["ok"]:
         what = "completion not unitary within tol" if v["stage"] == 0 else "Hadamard-conjugated corner of the completion differs from P by more than 1e-9*|P|_1"
         replay.update({"validator": line[:200]})
